@@ -1,4 +1,5 @@
 """C18 -- compiler registry and pipeline context stay coherent over any call history."""
+from ..rules import r6e as r6t_mod
 from ..core import Ctx, Ob, PropSpec
 from ..rules import r6, r6e, r14
 
@@ -8,6 +9,7 @@ def run(ctx: Ctx) -> list[Ob]:
     obs += r6e.r6e(ctx)
     obs += r6e.r6w(ctx)
     obs += r14.edge_multiplicity(ctx)
+    obs += r6t_mod.r6t(ctx)
     return obs
 
 
@@ -27,8 +29,9 @@ SPEC = PropSpec(
         "module-level function resolves the active context and delegates with all its arguments. R6e: no function that constructs and returns an object (in particular OperatorRegistry.from_default_rules, which gives each pipeline context its own registry and token slot) is memoised with functools.cache / lru_cache."
         " R6w: no class of the compile path (backend, pipeline, BiMap, operator registry) keeps its registrations in a weak container -- an association that lives only while the caller holds the symbolic circuit makes the operator functions on compiled circuits fail for every derived circuit."
         ' R14s: successor lists keep one entry per edge -- topological_ordering / layerwise_topological_ordering count predecessors with multiplicity and decrement once per listed successor, so graph_nodes_outgoings appends once per occurrence (no set, no membership guard) and every explicit outcomings_fn is a node_outputs method or a lookup in such a mapping, never a membership filter: c * c has operands (c, c), and a successor listed once while its predecessors are counted twice never becomes ready (the pipeline then reports a cycle instead of compiling the operand first).'
+        ' R6t: a registry class constructed from a mapping it later mutates (add_rule) copies that mapping in its constructor: the compilers are built from the module-level default rule tables, and a registry that keeps the dict it was given makes a rule added to one compiler / pipeline context active in every other one.'
     ),
     not_decided="re-entrancy of one context object (excluded by the property); thread/async interleavings of ContextVar (Python semantics).",
     run=run,
-    floors={"R14s": 3, "R6e": 50, "R6a": 8, "R6b": 10, "R6c": 14, "R6d": 30},
+    floors={"R6t": 1, "R14s": 3, "R6e": 50, "R6a": 8, "R6b": 10, "R6c": 14, "R6d": 30},
 )
